@@ -174,6 +174,7 @@ func vfC17(w *vfWorld) {
 		prefix := vfPick(t, "c17.prefix", []string{"/", "/api/", "/api/v2/", "/apix/", "/based/", "/rw/", "/rw/deep/", "/other/", "/exact", "/swap/", "/static-ok", "/api", "/exactx", "/art/", "/files/", "/files/", "/docs/",
 			// an encoded slash or letter right at a prefix boundary: which upstream owns the path depends on whether
 			// routing looks at the encoded or the decoded path (raw-path proxying)
+			"/robots.txt.gz", "/robots.txt/v2", "/robots.txt;v=2", "/robots.txtx", // merely START like a path the proxy answers itself
 			"/%70ing", "/pin%67", "/%72eady", // decode to the ping / ready paths of the pre-auth chain but ARE not those paths
 			"/api%2F", "/api%2Fv2/", "/api/v2%2F", "/apix%2F", "/based%2F", "/%61pi/", "/api/%762/", "/exact%2F", "/rw%2F", "/rw/deep%2F"})
 		path := prefix
